@@ -38,8 +38,8 @@ func init() {
 				}
 			}
 		}
-		buildSuffix := stringConst(fbt, "buildDirSuffix")
-		testSuffix := stringConst(fbt, "testDirSuffix")
+		buildSuffix := c20StringConst(fbt, "buildDirSuffix")
+		testSuffix := c20StringConst(fbt, "testDirSuffix")
 
 		// --- the sentinel and String() ----------------------------------------------------------------
 		origName := ""
@@ -131,9 +131,9 @@ func init() {
 		if len(mt.Body.List) != 3 {
 			failShape("Matches: expected 3 statements, found %d", len(mt.Body.List))
 		}
-		matchesCond := translateCond("Matches", ifReturning(mt.Body.List[0], "Matches", `label.Name == "..."`),
+		matchesCond := c20TranslateCond("Matches", c20IfReturning(mt.Body.List[0], "Matches", `label.Name == "..."`),
 			map[string]string{"label.PackageName": "lp", "other.PackageName": "op"})
-		if got := types.ExprString(ifReturning(mt.Body.List[1], "Matches", `label.Name == "all"`)); got != "label.PackageName == other.PackageName" {
+		if got := types.ExprString(c20IfReturning(mt.Body.List[1], "Matches", `label.Name == "all"`)); got != "label.PackageName == other.PackageName" {
 			failShape("Matches: the :all branch returns %s", got)
 		}
 		if r, ok := mt.Body.List[2].(*ast.ReturnStmt); !ok || len(r.Results) != 1 || types.ExprString(r.Results[0]) != "label == other.Parent()" {
@@ -149,9 +149,9 @@ func init() {
 		if !ok || outer.Init != nil || outer.Else != nil {
 			failShape("Includes: first statement is not a plain if")
 		}
-		includesCond := translateCond("Includes", outer.Cond,
+		includesCond := c20TranslateCond("Includes", outer.Cond,
 			map[string]string{"label.PackageName": "lp", "that.PackageName": "tp", "label.IsAllSubpackages()": "lall"})
-		matchShape("Includes (inner)", nodeText(fsL, outer.Body), `{
+		matchShape("Includes (inner)", c20NodeText(fsL, outer.Body), `{
 			if label.IsAllSubpackages() { return true } else if label.PackageName == that.PackageName {
 				if label.Name == that.Name || label.IsAllTargets() { return true } } }`)
 		if r, ok := inc.Body.List[1].(*ast.ReturnStmt); !ok || len(r.Results) != 1 || types.ExprString(r.Results[0]) != "false" {
@@ -178,7 +178,7 @@ func init() {
 		ast.Inspect(fst, func(n ast.Node) bool {
 			if as, ok := n.(*ast.AssignStmt); ok && len(as.Lhs) == 1 && types.ExprString(as.Lhs[0]) == "state.experimentalLabels" {
 				nExp++
-				if got := nodeText(fsS, as); got != `state.experimentalLabels = append(state.experimentalLabels, BuildLabel{PackageName: exp, Name: "..."})` {
+				if got := c20NodeText(fsS, as); got != `state.experimentalLabels = append(state.experimentalLabels, BuildLabel{PackageName: exp, Name: "..."})` {
 					failShape("state.go: unexpected assignment %s", got)
 				}
 			}
@@ -196,7 +196,7 @@ func init() {
 		if len(vs.Body.List) != 6 {
 			failShape("validateSandbox: expected 6 statements, found %d", len(vs.Body.List))
 		}
-		matchShape("validateSandbox (head)", nodeText(fsA, vs.Body.List[0])+" "+nodeText(fsA, vs.Body.List[1])+" "+nodeText(fsA, vs.Body.List[2])+" "+nodeText(fsA, vs.Body.List[3]), `
+		matchShape("validateSandbox (head)", c20NodeText(fsA, vs.Body.List[0])+" "+c20NodeText(fsA, vs.Body.List[1])+" "+c20NodeText(fsA, vs.Body.List[2])+" "+c20NodeText(fsA, vs.Body.List[3]), `
 			if target.IsFilegroup || len(state.Config.Sandbox.ExcludeableTargets) == 0 { return nil }
 			if !target.IsRemoteFile { if target.Sandbox && (target.Test == nil || target.Test.Sandbox) { return nil } }
 			if target.Label.PackageName == "_please" { return nil }
@@ -206,7 +206,7 @@ func init() {
 			rs.Value == nil || types.ExprString(rs.Value) != "dir" || len(rs.Body.List) != 1 {
 			failShape("validateSandbox: fifth statement is not `for _, dir := range state.Config.Parse.ExperimentalDir { if ... }`")
 		}
-		expCond := translateCond("validateSandbox", ifReturning(rs.Body.List[0], "validateSandbox", ""),
+		expCond := c20TranslateCond("validateSandbox", c20IfReturning(rs.Body.List[0], "validateSandbox", ""),
 			map[string]string{"target.Label.PackageName": "pkg", "dir": "dir"})
 		if r, ok := vs.Body.List[5].(*ast.ReturnStmt); !ok || len(r.Results) != 1 || !strings.HasPrefix(types.ExprString(r.Results[0]), "fmt.Errorf(") {
 			failShape("validateSandbox: last statement does not return an error")
@@ -235,7 +235,7 @@ func init() {
 	}
 }
 
-func stringConst(f *ast.File, name string) string {
+func c20StringConst(f *ast.File, name string) string {
 	for _, d := range f.Decls {
 		gd, ok := d.(*ast.GenDecl)
 		if !ok || gd.Tok != token.CONST {
@@ -258,12 +258,12 @@ func stringConst(f *ast.File, name string) string {
 	return ""
 }
 
-func nodeText(fset *token.FileSet, n ast.Node) string {
-	t := bodyText(fset, &ast.FuncDecl{Name: ast.NewIdent("node"), Body: &ast.BlockStmt{List: []ast.Stmt{asStmt(n)}}})
+func c20NodeText(fset *token.FileSet, n ast.Node) string {
+	t := bodyText(fset, &ast.FuncDecl{Name: ast.NewIdent("node"), Body: &ast.BlockStmt{List: []ast.Stmt{c20AsStmt(n)}}})
 	return strings.TrimSpace(strings.TrimSuffix(strings.TrimPrefix(t, "{"), "}"))
 }
 
-func asStmt(n ast.Node) ast.Stmt {
+func c20AsStmt(n ast.Node) ast.Stmt {
 	if s, ok := n.(ast.Stmt); ok {
 		return s
 	}
@@ -271,10 +271,10 @@ func asStmt(n ast.Node) ast.Stmt {
 	return nil
 }
 
-// ifReturning checks that st is `if <cond> { return <expr> }` (no init, no else) whose condition prints as
+// c20IfReturning checks that st is `if <cond> { return <expr> }` (no init, no else) whose condition prints as
 // cond (when cond is non-empty: then the RETURNED expression is the result; when cond is empty the body must
 // be `return nil` and the CONDITION is the result).
-func ifReturning(st ast.Stmt, what, cond string) ast.Expr {
+func c20IfReturning(st ast.Stmt, what, cond string) ast.Expr {
 	is, ok := st.(*ast.IfStmt)
 	if !ok || is.Init != nil || is.Else != nil || len(is.Body.List) != 1 {
 		failShape("%s: expected a plain `if c { return e }`", what)
@@ -295,9 +295,9 @@ func ifReturning(st ast.Stmt, what, cond string) ast.Expr {
 	return r.Results[0]
 }
 
-// translateCond turns a Go boolean expression over strings into a Gallina term of type bool.
+// c20TranslateCond turns a Go boolean expression over strings into a Gallina term of type bool.
 // Operands are looked up (by their printed form) in vars; anything unknown fails closed.
-func translateCond(what string, e ast.Expr, vars map[string]string) string {
+func c20TranslateCond(what string, e ast.Expr, vars map[string]string) string {
 	var str func(e ast.Expr) string
 	str = func(e ast.Expr) string {
 		if v, ok := vars[types.ExprString(e)]; ok {
